@@ -550,6 +550,136 @@ fn run_cases(inp: &str, out: &mut Out) {
     }
 }
 
+// minimal s-expression reader for the corpus programs (same notation as op-tests)
+fn sexp(v: &str) -> Option<Value> {
+    fn tok(s: &str) -> (&str, &str) {
+        let s = s.trim_start();
+        if s.starts_with('(') || s.starts_with(')') {
+            return s.split_at(1);
+        }
+        if let Some(st) = s.strip_prefix('"') {
+            let q = st.find('"').unwrap_or(st.len() - 1);
+            return s.split_at(q + 2);
+        }
+        let pos = s.find(|c: char| c == ' ' || c == ')' || c == '(').unwrap_or(s.len());
+        s.split_at(pos)
+    }
+    fn atom(t: &str) -> Option<Value> {
+        if t == "0" || t == "()" {
+            return Some(atom_json(&[]));
+        }
+        if let Some(h) = t.strip_prefix("0x") {
+            return hex::decode(h).ok().map(|b| atom_json(&b));
+        }
+        if t.starts_with('"') {
+            return Some(atom_json(t.trim_matches('"').as_bytes()));
+        }
+        if let Ok(v) = t.parse::<i64>() {
+            return Some(int_atom(v));
+        }
+        let names: &[(&str, u8)] = &[("q", 1), ("a", 2), ("i", 3), ("c", 4), ("f", 5), ("r", 6), ("l", 7), ("x", 8),
+            ("=", 9), (">s", 10), ("sha256", 11), ("substr", 12), ("strlen", 13), ("concat", 14), ("+", 16),
+            ("-", 17), ("*", 18), ("/", 19), ("divmod", 20), (">", 21), ("ash", 22), ("lsh", 23), ("logand", 24),
+            ("logior", 25), ("logxor", 26), ("lognot", 27), ("point_add", 29), ("pubkey_for_exp", 30), ("not", 32),
+            ("any", 33), ("all", 34), ("softfork", 36), ("coinid", 48), ("g1_subtract", 49), ("g1_multiply", 50),
+            ("g1_negate", 51), ("g2_add", 52), ("g2_subtract", 53), ("g2_multiply", 54), ("g2_negate", 55),
+            ("g1_map", 56), ("g2_map", 57), ("bls_pairing_identity", 58), ("bls_verify", 59), ("modpow", 60),
+            ("%", 61), ("keccak256", 62), ("sha256tree", 63)];
+        names.iter().find(|(n, _)| *n == t).map(|(_, b)| atom_json(&[*b]))
+    }
+    fn list(s: &str) -> Option<(Value, &str)> {
+        let (t, rest) = tok(s);
+        if t.is_empty() {
+            return None;
+        }
+        if t == ")" {
+            return Some((atom_json(&[]), rest));
+        }
+        if t == "." {
+            let (v, r1) = exp(rest)?;
+            let (c, r2) = tok(r1);
+            if c != ")" {
+                return None;
+            }
+            return Some((v, r2));
+        }
+        let (head, r1) = if t == "(" { list(rest)? } else { (atom(t)?, rest) };
+        let (tail, r2) = list(r1)?;
+        Some((json!({"f": head, "r": tail}), r2))
+    }
+    fn exp(s: &str) -> Option<(Value, &str)> {
+        let (t, rest) = tok(s);
+        if t == "(" {
+            list(rest)
+        } else {
+            atom(t).map(|a| (a, rest))
+        }
+    }
+    exp(v).map(|(v, _)| v)
+}
+
+// the ChiaLisp sha256tree of tools/src/bin/sha256tree-benching.rs:
+// (a (q 2 2 (c 2 (c 3 0))) (c (q 2 (i (l 5) (q 11 (q . 2) (a 2 (c 2 (c 9 0))) (a 2 (c 2 (c 13 0)))) (q 11 (q . 1) 5)) 1) 1))
+const CHIALISP_SHATREE: &str = "(a (q 2 2 (c 2 (c 3 0))) (c (q 2 (i (l 5) (q 11 (q . 2) (a 2 (c 2 (c 9 0))) (a 2 (c 2 (c 13 0)))) (q 11 (q . 1) 5)) 1) 1))";
+
+
+/// expressions that evaluate successfully by construction: integers / byte strings / lists with the operators applied to
+/// arguments of the right shape (arguments come from quoted constants or from the environment (A B C) of small integers)
+fn typed(r: &mut Rng, ty: u8, depth: u32) -> Value {
+    let a = |b: &[u8]| atom_json(b);
+    // ty 0: integer, 1: list
+    if depth == 0 || r.chance(1, 5) {
+        return match (ty, r.below(3)) {
+            (0, 0) => a(&[*r.pick(&[2u8, 5, 11])]),                       // first three environment items
+            (0, _) => q(int_atom(r.range(-300, 70000))),
+            (_, 0) => a(&[1]),                                            // the whole environment
+            _ => q(list_json(&[int_atom(r.range(0, 9)), int_atom(r.range(-9, 0)), atom_json(&[0x61, 0x62])])),
+        };
+    }
+    if ty == 0 {
+        match r.below(12) {
+            0..=2 => { let n = 1 + r.below(3); let mut it = vec![a(&[*r.pick(&[16u8, 17, 18])])]; for _ in 0..n { it.push(typed(r, 0, depth - 1)); } list_json(&it) }
+            3 => list_json(&[a(&[3]), typed(r, 0, depth - 1), typed(r, 0, depth - 1), typed(r, 0, depth - 1)]),
+            4 => list_json(&[a(&[13]), typed(r, 0, depth - 1)]),
+            5 => list_json(&[a(&[*r.pick(&[9u8, 10, 21])]), typed(r, 0, depth - 1), typed(r, 0, depth - 1)]),
+            6 => list_json(&[a(&[11]), typed(r, 0, depth - 1), typed(r, 0, depth - 1)]),
+            7 => list_json(&[a(&[14]), typed(r, 0, depth - 1), typed(r, 0, depth - 1)]),
+            8 => list_json(&[a(&[5]), typed(r, 1, depth - 1)]),
+            9 => list_json(&[a(&[2]), q(typed(r, 0, depth - 1)), typed(r, 1, depth - 1)]),
+            10 => list_json(&[a(&[*r.pick(&[24u8, 25, 26])]), typed(r, 0, depth - 1), typed(r, 0, depth - 1)]),
+            _ => { let t = r.below(2) as u8; list_json(&[a(&[7]), typed(r, t, depth - 1)]) }
+        }
+    } else {
+        match r.below(4) {
+            0 | 1 => list_json(&[a(&[4]), typed(r, 0, depth - 1), typed(r, 1, depth - 1)]),
+            2 => list_json(&[a(&[6]), list_json(&[a(&[4]), typed(r, 0, depth - 1), typed(r, 1, depth - 1)])]),
+            _ => list_json(&[a(&[3]), typed(r, 0, depth - 1), typed(r, 1, depth - 1), typed(r, 1, depth - 1)]),
+        }
+    }
+}
+
+/// bounded recursion schemas (factorial, list sum, list reverse-length, tree hash in ChiaLisp)
+fn recursion(r: &mut Rng) -> (Value, Value) {
+    match r.below(3) {
+        0 => {
+            let p = sexp("(a (q 2 2 (c 2 (c 5 ()))) (c (q 2 (i (= 5 (q . 1)) (q 1 . 1) (q 18 5 (a 2 (c 2 (c (- 5 (q . 1)) ()))))) 1) 1))").unwrap();
+            (p, list_json(&[int_atom(r.range(1, 25))]))
+        }
+        1 => {
+            // sum of a list: (a (q 2 2 (c 2 (c 5 ()))) (c (q 2 (i 5 (q 16 9 (a 2 (c 2 (c 13 ())))) (q 1)) 1) 1))
+            let p = sexp("(a (q 2 2 (c 2 (c 5 ()))) (c (q 2 (i 5 (q 16 9 (a 2 (c 2 (c 13 ())))) (q 1)) 1) 1))").unwrap();
+            let n = r.below(30) as usize;
+            let items: Vec<Value> = (0..n).map(|_| int_atom(r.range(-1000, 100000))).collect();
+            (p, list_json(&[list_json(&items)]))
+        }
+        _ => {
+            let p = sexp(CHIALISP_SHATREE).unwrap();
+            let b = 1 + r.below(20) as usize;
+            (p, rand_tree(r, b, 10, 20))
+        }
+    }
+}
+
 // ---------------------------------------------------------------------------
 // run case generator
 
@@ -609,8 +739,14 @@ fn gen_run(seed: u64, n: u64, out: &mut Out) {
                 Some(x) => x,
                 None => continue,
             }
-        } else if pick < 32 {
+        } else if pick < 30 {
             tmpl(&mut r)
+        } else if pick < 52 {
+            let d = 1 + r.below(5) as u32;
+            let ty = r.below(2) as u8;
+            (typed(&mut r, ty, d), list_json(&[int_atom(r.range(-50, 5000)), int_atom(r.range(0, 9)), atom_json(&rand_atom_bytes(&mut r, 9))]))
+        } else if pick < 60 {
+            recursion(&mut r)
         } else {
             let mut pg = PG { r: &mut r, newer: true, guards: true, crypto: true, unknown: true };
             let depth = 1 + pg.r.below(4) as u32;
@@ -750,9 +886,10 @@ fn deser_rust(func: &str, blob: &[u8], max: usize, strict: bool, level: u32) -> 
     match res {
         Err(m) => json!({"ok": false, "msg": m}),
         Ok(n) => {
+            // a serializer error is the impossible byte string [999] (keeps the field a sequence for TLC)
             let f = |x: Result<Vec<u8>, EvalErr>| match x {
                 Ok(b) => bytes_json(&b),
-                Err(e) => json!({"err": e.to_string()}),
+                Err(_) => json!([999]),
             };
             json!({"ok": true, "tree": tree_json(&a, n), "ser_legacy": f(node_to_bytes(&a, n)),
                    "ser_backrefs": f(node_to_bytes_backrefs(&a, n)), "ser_2026": f(serialize_2026(&a, n, level))})
@@ -871,6 +1008,13 @@ fn gen_trees(seed: u64, n: u64, out: &mut Out) {
         let tree = match r.below(30) {
             0 => atom_json(&rand_atom_bytes(&mut r, 12)),
             1..=3 => codec_tree(&mut r),
+            10 | 11 => {
+                // atoms at the length-prefix class boundaries (0x40, 0x2000)
+                let n = *r.pick(&[63usize, 64, 64, 65, 63, 64, 65, 8191, 8192, 8193]);
+                let fill = r.next() as u8;
+                let b = vec![fill; n];
+                if r.chance(1, 2) { atom_json(&b) } else { json!({"f": atom_json(&b), "r": atom_json(&rand_atom_bytes(&mut r, 6))}) }
+            }
             4..=9 => {
                 // complete-ish trees of depth up to 6 over few atom values (the F1 probe's shape)
                 fn full(r: &mut Rng, d: u32) -> Value {
@@ -1053,7 +1197,7 @@ fn gen_ints(seed: u64, n: u64, out: &mut Out) {
                 let mut a = Allocator::new();
                 let nn = a.new_number(number_of(neg2, &m2)).unwrap();
                 bytes_json(a.atom(nn).as_ref())
-            }).unwrap_or_else(|p| json!({"panic": p}));
+            }).unwrap_or_else(|_| json!([999]));
             out.emit(&json!({"ev": "int", "case": case, "dir": "to", "neg": neg, "mag": bytes_json(&mag), "rust": rust}));
         } else {
             let b: Vec<u8> = match r.below(5) {
